@@ -36,6 +36,10 @@ TEXT.update({
  "C18": ("Keyboard.tla is the WIRING of three stage automata given as parameters. Spec side: instantiated with the stage specifications, TLC checks the isolation action properties over the full frame (2047) x scancode (6/3) product. Code side: instantiated with the automata extracted from the real, separately used Ps2Decoder / ScancodeSet / EventDecoder, TLC explores the synchronous product with the reachable graph of the real composite Keyboard over an alphabet mixing all entry points (49 128 composite states quick, 196 512 thorough) and validates recorded random interleavings with line noise (40k calls per set quick, 1.5M thorough), including opaque per-stage ids that must not change for stages a call does not feed.", "G+V: composite reachable-graph product + trace validation in TLC"),
 })
 
+TEXT["C13"] = (TEXT["C13"][0] + " End to end: World.tla (physical keyboard with typematic and the compound Pause/PrintScreen sequences, i8042 translation, two hosts) is model-checked for set independence, and behaviours generated by TLC (-simulate) are replayed into two real Keyboards (Set 2 raw / Set 1 translated) which must agree with each other and with the specification step by step.", TEXT["C13"][1] + " + end-to-end behaviour replay")
+TEXT["C03"] = (TEXT["C03"][0] + " The end-to-end clause (from scancodes) is exercised by the World.tla behaviour replay with real layouts.", TEXT["C03"][1])
+TEXT["C18"] = (TEXT["C18"][0] + " A per-operation sweep applies every input of every entry point (2681 operations) in every sampled frame x scancode x event context and TLC requires that only fed stages change and that no result depends on a stage the call does not read.", TEXT["C18"][1])
+
 def main():
     checks = []
     for pid in sorted(pkverif.PROPS):
